@@ -10,6 +10,7 @@ package main
 // An emitter returns the number of things it could not extract (non-zero makes svx exit 3).
 
 import (
+	"bytes"
 	"crypto/sha256"
 	"encoding/hex"
 	"fmt"
@@ -1858,7 +1859,155 @@ func (m *modFacts) touches(key string) map[string]touch {
 	return out
 }
 
+// reach: keeper-package functions reachable from `key` through direct calls (same callee resolution as touches)
+func (m *modFacts) reach(key string, seen map[string]bool) {
+	fd, ok := m.kp.funcs[key]
+	if !ok || fd.Body == nil || seen[key] {
+		return
+	}
+	seen[key] = true
+	_, recv := recvTypeName(fd)
+	ast.Inspect(fd.Body, func(n ast.Node) bool {
+		x, ok := n.(*ast.CallExpr)
+		if !ok {
+			return true
+		}
+		callee := ""
+		switch f := x.Fun.(type) {
+		case *ast.SelectorExpr:
+			if id, ok := f.X.(*ast.Ident); ok && id.Name == recv && recv != "" {
+				callee = "Keeper." + f.Sel.Name
+				if _, ok := m.kp.funcs[callee]; !ok {
+					callee = ""
+					var ks []string
+					for k := range m.kp.funcs {
+						if strings.HasSuffix(k, "."+f.Sel.Name) {
+							ks = append(ks, k)
+						}
+					}
+					sort.Strings(ks)
+					if len(ks) > 0 {
+						callee = ks[len(ks)-1]
+					}
+				}
+			}
+		case *ast.Ident:
+			if _, ok := m.kp.funcs[f.Name]; ok {
+				callee = f.Name
+			}
+		}
+		if callee != "" {
+			m.reach(callee, seen)
+		}
+		return true
+	})
+}
+
+// genesisEarlyExit: a place where a function on the ExportGenesis / InitGenesis path may stop going through a collection
+// before its end: a walk callback (func literal returning (bool, error) or bool) that can answer "stop" without an error,
+// or a `break` out of a loop.  The round trip of a prefix presupposes that export reads ALL of it and import writes ALL of it.
+type genesisEarlyExit struct{ module, path, fn, detail string }
+
+func (m *modFacts) earlyExits(root, path string) (out []genesisEarlyExit) {
+	seen := map[string]bool{}
+	m.reach(root, seen)
+	var keys []string
+	for k := range seen {
+		keys = append(keys, k)
+	}
+	sort.Strings(keys)
+	isIdent := func(e ast.Expr, name string) bool { id, ok := e.(*ast.Ident); return ok && id.Name == name }
+	for _, k := range keys {
+		fd := m.kp.funcs[k]
+		add := func(pos token.Pos, d string) {
+			out = append(out, genesisEarlyExit{m.mod, path, k, fmt.Sprintf("%s (line %d)", d, m.l.fset.Position(pos).Line)})
+		}
+		// walk callbacks
+		ast.Inspect(fd.Body, func(n ast.Node) bool {
+			fl, ok := n.(*ast.FuncLit)
+			if !ok || fl.Type.Results == nil {
+				return true
+			}
+			var res []ast.Expr
+			for _, f := range fl.Type.Results.List {
+				cnt := len(f.Names)
+				if cnt == 0 {
+					cnt = 1
+				}
+				for i := 0; i < cnt; i++ {
+					res = append(res, f.Type)
+				}
+			}
+			if len(res) == 0 || !isIdent(res[0], "bool") || len(res) > 2 {
+				return true
+			}
+			ast.Inspect(fl.Body, func(q ast.Node) bool {
+				if _, ok := q.(*ast.FuncLit); ok {
+					return false
+				}
+				rs, ok := q.(*ast.ReturnStmt)
+				if !ok {
+					return true
+				}
+				if len(rs.Results) == 0 {
+					add(rs.Pos(), "walk callback with a bare return")
+					return true
+				}
+				stop := rs.Results[0]
+				withErr := len(rs.Results) == 2 && !isIdent(rs.Results[1], "nil")
+				if !isIdent(stop, "false") && !withErr {
+					add(rs.Pos(), "walk callback may stop without an error: return "+exprText(m.l.fset, stop))
+				}
+				return true
+			})
+			return true
+		})
+		// break out of a loop
+		var walk func(n ast.Node, inLoop bool)
+		walk = func(n ast.Node, inLoop bool) {
+			ast.Inspect(n, func(q ast.Node) bool {
+				switch x := q.(type) {
+				case *ast.FuncLit:
+					walk(x.Body, false)
+					return false
+				case *ast.ForStmt:
+					walk(x.Body, true)
+					return false
+				case *ast.RangeStmt:
+					walk(x.Body, true)
+					return false
+				case *ast.SwitchStmt:
+					walk(x.Body, false)
+					return false
+				case *ast.TypeSwitchStmt:
+					walk(x.Body, false)
+					return false
+				case *ast.SelectStmt:
+					walk(x.Body, false)
+					return false
+				case *ast.BranchStmt:
+					if x.Tok == token.BREAK && (inLoop || x.Label != nil) {
+						add(x.Pos(), "break out of a loop")
+					}
+				}
+				return true
+			})
+		}
+		walk(fd.Body, false)
+	}
+	return
+}
+
+func exprText(fset *token.FileSet, e ast.Expr) string {
+	var b bytes.Buffer
+	_ = printer.Fprint(&b, fset, e)
+	return b.String()
+}
+
+var genesisExits []genesisEarlyExit
+
 func scanGenesis(l *factsLoader) (rows []prefixRow, bad int) {
+	genesisExits = nil
 	for _, mod := range customModules {
 		m := &modFacts{l: l, mod: mod, kp: l.load("x/" + mod + "/keeper"), tp: l.load("x/" + mod + "/types"), fields: map[string]bool{},
 			rawKey: map[string]string{}, memo: map[string]map[string]touch{}, onStack: map[string]bool{}}
@@ -1883,6 +2032,8 @@ func scanGenesis(l *factsLoader) (rows []prefixRow, bad int) {
 			r.exportReads = exp[key].r
 		}
 		rows = append(rows, m.rows...)
+		genesisExits = append(genesisExits, m.earlyExits("Keeper.ExportGenesis", "export")...)
+		genesisExits = append(genesisExits, m.earlyExits("Keeper.InitGenesis", "init")...)
 	}
 	return
 }
@@ -2021,6 +2172,19 @@ func emitCoreFacts(repo, outDir string) int {
 		fmt.Fprintf(&b, "  { module := %s, name := %s, pfx := %s, kind := %s, parent := %s, initWrites := %v, exportReads := %v }%s\n",
 			leanStr(r.module), leanStr(r.name), leanStr(r.prefix), leanStr(r.kind), leanStr(r.parent), r.initWrites, r.exportReads, sep)
 		fmt.Printf("fact prefix %s %s %q kind=%s init=%v export=%v\n", r.module, r.name, r.prefix, r.kind, r.initWrites, r.exportReads)
+	}
+	b.WriteString("]\n\n")
+	b.WriteString("/-- Places on the ExportGenesis (`path` = export) / InitGenesis (init) call paths of a custom module where the walk over a\n")
+	b.WriteString("collection may end before the collection does (a walk callback answering stop without an error, a break out of a loop). -/\n")
+	b.WriteString("structure GenesisEarlyExit where\n  module : String\n  path : String\n  fn : String\n  detail : String\n  deriving DecidableEq, Repr\n\n")
+	b.WriteString("def genesisEarlyExits : List GenesisEarlyExit := [\n")
+	for i, x := range genesisExits {
+		sep := ","
+		if i == len(genesisExits)-1 {
+			sep = ""
+		}
+		fmt.Fprintf(&b, "  { module := %s, path := %s, fn := %s, detail := %s }%s\n", leanStr(x.module), leanStr(x.path), leanStr(x.fn), leanStr(x.detail), sep)
+		fmt.Printf("fact genesis-early-exit %s %s %s %s\n", x.module, x.path, x.fn, x.detail)
 	}
 	b.WriteString("]\n\n")
 	var fa []string
